@@ -235,8 +235,8 @@ func Check(r *ev.Run, replay string) {
 		r.Set("observations_outside_statement", map[string]any{"count": len(notes), "classes": classes, "first": notes[0]})
 	}
 	r.Set("bound_completed", maxLen)
-	r.Set("rule", fmt.Sprintf("A: all %d ordered pairs x %d operators and all %d triples over the 45-value pool through the object API; B: the same pairs and triples through scripts run by risor.Eval (literal operands, 45 scripts of %d guarded expressions) plus cell-by-cell agreement with A; C: every list of length 0..%d (bool: 0..%d) over each of %d families of 6 values (%d lists) through sorted, sorted twice, list.sort, set(), set literal, `in`, bool()/!! vs len, and object.Sort; D: every list of length 13 over {1, 1.0, 0} (3^13) through object.Sort and, through sorted()/list.sort() in scripts, those with exactly one 0 at position 0, 6 or 12 (thorough: any position) (Go's sort changes algorithm above 12 elements). distinct = distinct (level, type pair, answers of all %d operators) rows and distinct (family, outcome classes, sorted result) tuples",
-		stA.pairs, nOps, stA.triples, len(vals)*nOps, maxLen, maxLen+4, len(famSizes), totalLists, nOps))
+	r.Set("rule", fmt.Sprintf("A: all %d ordered pairs x %d operators and all %d triples over the 45-value pool through the object API; B: the same pairs and triples through scripts run by risor.Eval (literal operands, 45 scripts of %d guarded expressions) plus cell-by-cell agreement with A; C: every list of length 0..%d (bool: 0..%d) over each of %d families of 6 values (%d lists) through sorted, sorted twice, list.sort, set(), set literal, `in`, bool()/!! vs len, and object.Sort; D: every list of length 13 over {1, 1.0, 0} (3^13) through object.Sort and, through sorted()/list.sort() in scripts, those with exactly one 0 at a position in %v and every arrangement of 1 / 1.0 elsewhere (%d lists; Go's sort changes algorithm above 12 elements). distinct = distinct (level, type pair, answers of all %d operators) rows and distinct (family, outcome classes, sorted result) tuples",
+		stA.pairs, nOps, stA.triples, len(vals)*nOps, maxLen, maxLen+4, len(famSizes), totalLists, zeroAt, nLong2, nOps))
 	r.Sample(map[string]any{"level": "object", "a": "int(2^53+1)", "b": "float(2^53)", "answers": objT.row(7, 14)})
 	r.Sample(map[string]any{"level": "script", "a": "int(2^53+1)", "b": "float(2^53)", "answers": scrT.row(7, 14), "expr": pairExprs(vals[7].Src, vals[14].Src)[oLT]})
 	r.Sample(map[string]any{"level": "script", "a": "set{1}", "b": "float(1.0)", "answers": scrT.row(41, 12)})
